@@ -58,6 +58,15 @@ FIRST = {
  'C06-m3': (True, ""),
  'C13-m3': (False, "edits `required-property-added@body.no-properties(map|allOf)`: the schema has no `properties` of its own before the edit"),
  'C16-m3': (False, "an empty scanned schema is probed with one document of every JSON kind instead of being left unjudged (`untyped-position`)"),
+ # fourth round (eight properties, one more change each; asked to avoid the mechanisms already seeded)
+ 'C08-m3': (False, "atoms `files.def|op-goos|goarch-suffix` (a name ending in every word go/build reads as a build constraint) and a new oracle: a generated file that go/build leaves out is a dropped handler / model, judged whether or not the rest compiles (ParseDir used to see the type in the excluded file); it exposed the missing `wasip1` (fix 691fb3d). patch.diff is the agent's change rebased on 691fb3d (patch.orig.diff)"),
+ 'C10-m3': (False, "document `selection` (operations carrying several tags) generated with `--tags`, `--operation`, `--model`, `--skip-tag-packages`: the generated code covers a part, the embedded documents must stay the whole input"),
+ 'C11-m3': (False, "application name that needs file-name mangling (`A=mixed` = TodoList) with the built-in layout and with config files naming the configure file in both documented spellings (`config-file=layout-doc`: `configure_{{ .Name }}.go`)"),
+ 'C12-m3': (True, ""),
+ 'C14-m3': (False, "pair class `rename` (115 pairs): one named element respelled by case only or renamed, at every position the analyser matches by name (response headers, parameters in every location, properties at every depth, definitions, paths, enum values, tags, media types, extension keys)"),
+ 'C15-m3': (True, ""),
+ 'C17-m3': (False, "forms `route.responses.named.model-namesake` (a swagger:response and a swagger:model under one name; untagged / `response:` / `body:` references) and `route.responses.tagged`"),
+ 'C19-m3': (True, ""),
 }
 
 root = '/verif/seeded'
@@ -69,6 +78,7 @@ for sid in sorted(os.listdir(root)):
     readme = open(os.path.join(d, 'README.md'), errors='replace').read() if os.path.exists(os.path.join(d, 'README.md')) else ''
     title = readme.splitlines()[0].lstrip('# ').strip() if readme else sid
     title = re.sub(r'^(C\d\d\s*/\s*)?MUTANT\s*\d\s*[-—–:]+\s*', '', title)
+    title = re.sub(r'^C\d\d\s+seed(ed change)?\s*:\s*', '', title)
     m = re.search(r'^##[^\n]*needed for it to manifest[^\n]*\n(.*?)(?=^## )', readme, re.S | re.M)
     needs = m.group(1).strip() if m else ''
     confirm = {}
